@@ -1,5 +1,6 @@
 import VModel.Cli
 import VModel.F64Arith
+import VModel.F64Fmt
 import VModel.Bincode
 import Driver.ModelParse
 /-! Line-protocol handler for the command-line tools (`CP` predict, `CE` evaluate). -/
@@ -28,8 +29,10 @@ def runCP (flags mS h cl : String) : String :=
     | _ => "101:"
   | _, _, _ => "bad-case"
 
-/-- `CE <flags>:<wsconst|-> <model> <hex stdin> <clusters>` → `<exit>:<counts>;P=<bits>,R=<bits>,F=<bits>` (the binary64 bit
-patterns of precision, recall and F1 as 16 lower-case hex digits, NaN as `7ff8000000000000`) -/
+/-- `CE <flags>:<wsconst|-> <model> <hex stdin> <clusters>` →
+`<exit>:<counts>;P=<bits>,R=<bits>,F=<bits>;D=<precision text>,<recall text>,<f1 text>` (the binary64 bit patterns of
+precision, recall and F1 as 16 lower-case hex digits, NaN as `7ff8000000000000`; then the three numbers as `println!("{}")`
+writes them, `VModel/F64Fmt.lean`) -/
 def runCE (flags mS h cl : String) : String :=
   match parseModel mS, hexToStr? h, parseClusters cl with
   | some m, some stdin, some clusters =>
@@ -40,12 +43,20 @@ def runCE (flags mS h cl : String) : String :=
     | .ok ls =>
       if fl.wordMetric then
         let (cor, sys, ref) := wordCounts ls
-        s!"0:cor={cor},sys={sys},ref={ref};" ++ metricsText (evalMetricsWord (cor, sys, ref))
+        s!"0:cor={cor},sys={sys},ref={ref};" ++ metricsText (evalMetricsWord (cor, sys, ref)) ++ ";" ++
+          displayText (evalMetricsWord (cor, sys, ref))
       else
         let (tp, tn, fp, fn) := charCounts ls
-        s!"0:tp={tp},tn={tn},fp={fp},fn={fn};" ++ metricsText (evalMetricsChar (tp, tn, fp, fn))
+        s!"0:tp={tp},tn={tn},fp={fp},fn={fn};" ++ metricsText (evalMetricsChar (tp, tn, fp, fn)) ++ ";" ++
+          displayText (evalMetricsChar (tp, tn, fp, fn))
     | .err _ => "1:"
     | _ => "101:"
   | _, _, _ => "bad-case"
+
+/-- `FD <hex64 bits>` → the text `format!("{}", f64::from_bits(bits))` -/
+def runFD (b : String) : String :=
+  match hex64? b with
+  | some bits => String.ofList (f64Display (F64.ofBits bits))
+  | none => "bad-case"
 
 end V.Drv
